@@ -43,15 +43,17 @@ func errID(err error) int {
 
 func runGeneric(r *Rng, maxCallers, nkeys int, windowP float64, script func(e *engine, mk func(id int, key string) *caller)) Case {
 	g := &singleflight.Group{}
-	e := newEngine(g, gAnswer{val: 999, err: errors.New("stray"), eid: 998})
+	e := newEngine([]*singleflight.Group{g}, gAnswer{val: 999, err: errors.New("stray"), eid: 998})
 	mk := func(id int, key string) *caller {
 		c := &caller{id: id, done: make(chan struct{}), label: key}
 		c.spawn = func() {
 			go func() {
 				v, cnt, err := g.Do(key, func() (interface{}, error) {
 					ex := &exec{owner: c, release: make(chan interface{}, 1)}
+					e.logBegin(ex)
 					e.starts <- ex
 					a := (<-ex.release).(gAnswer)
+					e.logEnd(ex)
 					return a.val, a.err
 				})
 				c.out = gOut{v, cnt, err}
@@ -115,6 +117,7 @@ func emitGeneric(e *engine) Case {
 			jevs = append(jevs, fmt.Sprintf("Wake %d", ev.t))
 		}
 	}
+	logC, logJ := emitLog(e)
 	var obs []string
 	var jobs []map[string]interface{}
 	for _, c := range e.callers {
@@ -132,9 +135,29 @@ func emitGeneric(e *engine) Case {
 		jobs = append(jobs, map[string]interface{}{"caller": c.id, "returned": c.returned, "fn_ran": c.ran, "val": val, "err": eid, "count": cnt})
 	}
 	return Case{
-		Coq:  fmt.Sprintf("CGen %s %s %s", List(evs), Nat(e.stray), List(obs)),
-		JSON: map[string]interface{}{"level": "singleflight.Group", "events": jevs, "stray_execs": e.stray, "callers": jobs},
+		Coq:  fmt.Sprintf("CGen %s %s %s %s", List(evs), Nat(e.stray), List(logC), List(obs)),
+		JSON: map[string]interface{}{"level": "singleflight.Group", "events": jevs, "stray_execs": e.stray, "exec_log": logJ, "callers": jobs},
 	}
+}
+
+// emitLog renders the execution log fn / the inner providers wrote.
+func emitLog(e *engine) (coq []string, js []string) {
+	e.logMu.Lock()
+	defer e.logMu.Unlock()
+	for _, l := range e.log {
+		id := l.ex.cid
+		if id == 0 && l.ex.owner != nil {
+			id = l.ex.owner.id
+		}
+		if l.begin {
+			coq = append(coq, "LBegin "+Nat(id))
+			js = append(js, fmt.Sprintf("begin %d", id))
+		} else {
+			coq = append(coq, "LEnd "+Nat(id))
+			js = append(js, fmt.Sprintf("end %d", id))
+		}
+	}
+	return
 }
 
 // ---------------- wrapper level: data shared by both services ----------------
@@ -156,8 +179,10 @@ type upd struct {
 }
 
 type question struct {
-	endpoint string // Coq constructor name: PValidate, PRefresh, PUserGroups, AValidate, ARefresh, ARevoke, AGroupMembership, ARefreshAccessToken
-	s        *sess  // session-keyed endpoints
+	endpoint string   // Coq constructor name: PValidate, PRefresh, PUserGroups, AValidate, ARefresh, ARevoke, AGroupMembership, ARefreshAccessToken
+	s        *sess    // session-keyed endpoints
+	allowed  []string // allowedGroups argument (proxy ValidateSessionState / RefreshSession)
+	wid      int      // the wrapper object the question is put to
 	email    string
 	groups   []string
 	token    string
@@ -239,7 +264,7 @@ func (q *question) coq() string {
 	case "ARefreshAccessToken":
 		return fmt.Sprintf("(QToken %s %s)", q.endpoint, Str(q.token))
 	}
-	return fmt.Sprintf("(QSession %s %s)", q.endpoint, q.s.coq())
+	return fmt.Sprintf("(QSession %s %s %s)", q.endpoint, q.s.coq(), Strs(q.allowed))
 }
 func (q *question) json() map[string]interface{} {
 	switch q.endpoint {
@@ -248,7 +273,11 @@ func (q *question) json() map[string]interface{} {
 	case "ARefreshAccessToken":
 		return map[string]interface{}{"method": q.endpoint, "refresh_token": q.token}
 	}
-	return map[string]interface{}{"method": q.endpoint, "session": q.s.json()}
+	m := map[string]interface{}{"method": q.endpoint, "session": q.s.json()}
+	if q.endpoint == "PValidate" || q.endpoint == "PRefresh" {
+		m["allowed_groups"] = q.allowed
+	}
+	return m
 }
 
 func (v wValue) coq(eid int) string {
@@ -282,8 +311,8 @@ func (v wValue) json(eid int) interface{} {
 
 // a world builds callers that perform the real wrapper call for a question
 type wrapWorld interface {
-	group() *singleflight.Group
-	call(q *question, id int) wOut
+	groups() []*singleflight.Group // one per wrapper object
+	call(q *question, id int) wOut // performs the real call on wrapper object q.wid
 	svc() string
 }
 
@@ -295,13 +324,14 @@ func cloneQuestion(q *question) *question {
 		c.s = &s
 	}
 	c.groups = append([]string(nil), q.groups...)
+	c.allowed = append([]string(nil), q.allowed...)
 	return &c
 }
 
 func runWrapper(w wrapWorld, e *engine, r *Rng, maxCallers int, windowP float64, genQ func() *question, genA func(q *question) wAnswer,
 	script func(e *engine, mk func(id int, q *question) *caller)) Case {
 	mk := func(id int, q *question) *caller {
-		c := &caller{id: id, done: make(chan struct{}), label: q}
+		c := &caller{id: id, wid: q.wid, done: make(chan struct{}), label: q}
 		c.spawn = func() {
 			go func() {
 				c.out = w.call(q, id)
@@ -337,31 +367,33 @@ func emitWrapper(w wrapWorld, e *engine) Case {
 	for _, c := range e.callers {
 		byID[c.id] = c
 	}
+	w0 := func(t int) int { return byID[t].wid }
 	var evs []string
 	var jevs []interface{}
 	for _, ev := range e.trace {
 		switch ev.kind {
 		case "enter":
 			q := byID[ev.t].label.(*question)
-			evs = append(evs, fmt.Sprintf("WEnter %s %s", Nat(ev.t), q.coq()))
-			jevs = append(jevs, map[string]interface{}{"Enter": ev.t, "asks": q.json()})
+			evs = append(evs, Pair(Nat(w0(ev.t)), fmt.Sprintf("WEnter %s %s", Nat(ev.t), q.coq())))
+			jevs = append(jevs, map[string]interface{}{"Enter": ev.t, "wrapper": w0(ev.t), "asks": q.json()})
 		case "fn":
 			a := ev.ans.(wAnswer)
-			evs = append(evs, fmt.Sprintf("WFnReturn %s %s %s", Nat(ev.t), a.v.coq(a.eid), a.u.coq()))
+			evs = append(evs, Pair(Nat(w0(ev.t)), fmt.Sprintf("WFnReturn %s %s %s", Nat(ev.t), a.v.coq(a.eid), a.u.coq())))
 			jevs = append(jevs, map[string]interface{}{"InnerReturns": ev.t, "result": a.v.json(a.eid), "session_update": a.u.json()})
 		case "cleanup":
-			evs = append(evs, "WCleanup "+Nat(ev.t))
+			evs = append(evs, Pair(Nat(w0(ev.t)), "WCleanup "+Nat(ev.t)))
 			jevs = append(jevs, fmt.Sprintf("Cleanup %d", ev.t))
 		case "wake":
-			evs = append(evs, "WWake "+Nat(ev.t))
+			evs = append(evs, Pair(Nat(w0(ev.t)), "WWake "+Nat(ev.t)))
 			jevs = append(jevs, fmt.Sprintf("Wake %d", ev.t))
 		}
 	}
+	logC, logJ := emitLog(e)
 	var obs []string
 	var jobs []map[string]interface{}
 	for _, c := range e.callers {
 		res, sessC, keyC := "(VNil, 0)", "None", "None"
-		j := map[string]interface{}{"caller": c.id, "returned": c.returned, "inner_ran": c.ran}
+		j := map[string]interface{}{"caller": c.id, "wrapper": c.wid, "returned": c.returned, "inner_ran": c.ran}
 		if c.returned {
 			o := c.out.(wOut)
 			res = o.v.coq(o.eid)
@@ -372,15 +404,16 @@ func emitWrapper(w wrapWorld, e *engine) Case {
 			}
 		}
 		if c.ran && c.keyKnown {
-			keyC = "(Some " + Str(c.sfKey) + ")"
-			j["key"] = c.sfKey
+			keyC = "(Some " + Str(rawKey(c.sfKey)) + ")"
+			j["key"] = rawKey(c.sfKey)
 		}
-		obs = append(obs, fmt.Sprintf("mkWObs %s %s %s %s %s %s", Nat(c.id), Bool(c.returned), Bool(c.ran), res, sessC, keyC))
+		obs = append(obs, fmt.Sprintf("mkWObs %s %s %s %s %s %s %s", Nat(c.id), Nat(c.wid), Bool(c.returned), Bool(c.ran), res, sessC, keyC))
 		jobs = append(jobs, j)
 	}
 	return Case{
-		Coq:  fmt.Sprintf("CWrap %s %s %s %s", w.svc(), List(evs), Nat(e.stray), List(obs)),
-		JSON: map[string]interface{}{"level": "SingleFlightProvider/" + w.svc(), "events": jevs, "stray_execs": e.stray, "callers": jobs},
+		Coq: fmt.Sprintf("CWrap %s %s %s %s %s", w.svc(), List(evs), Nat(e.stray), List(logC), List(obs)),
+		JSON: map[string]interface{}{"level": "SingleFlightProvider/" + w.svc(), "wrapper_objects": len(w.groups()), "events": jevs,
+			"stray_execs": e.stray, "exec_log": logJ, "callers": jobs},
 	}
 }
 
